@@ -18,11 +18,20 @@
                  `x = <container>[i]`.  Deviation: `(b"a", b"b")` items were inferred as `unsigned char`: the loop variable held 97, 98.
 
 Both rules interpret repository *code* with the evaluator of rules/pC07.py (+ the extensions below); nothing is imported or executed.
+A construct the evaluator does not model is an ANALYSIS-ERROR, never a verdict.
+
+Not decided: C40-INFSCOPE takes the scopes that are inferred from the `<node>.<attr>.infer_types()` call sites (another call shape is refused) and
+says nothing about how a name is resolved inside the installed scope (closure entries: known finding K12).  C40-ITEMTYPE: literals that mix
+Python types (the spanning type of two kinds is C40-BOOL / C40-PYTYPE territory), starred items (the recursive call answers None for every
+StarredUnpackingNode today), the aggressive mode (infer_types=True: outside the property), the inferred types of the item literals themselves
+(assumed: bytes / str literal -> bytes / str object, int -> C long, float -> C double, bool -> bint), `tuple[X, Y]` subscripted container types.
+
+Registration: in props/C40.py `from ..rules import dD1` and `dD1.rule_infscope(ctx), dD1.rule_itemtype(ctx)` in the list run() returns.
 """
 import ast
 
 from ..core import Rule, AnalysisError, node_src
-from .pC07 import Obj, Unsupported, RepoFn, Method, Sym, ModRef
+from .pC07 import Obj, Unsupported, RepoFn, Method, Sym
 from .sC40 import LoopEval, PairEval
 
 TI = 'Cython/Compiler/TypeInference.py'
@@ -264,10 +273,10 @@ def rule_infscope(ctx, floor=13):
     vis = ix.cls('TypeInference', 'MarkOverflowingArithmetic')
     rows, infos = scope_table(ix, vis)
     for cls, attr, fn, what, where, problem in rows:
-        key = '%s.%s -> %s.%s' % (cls.name, attr, vis.name, fn.name)
-        r.inst(key + ':' + what, sample='%s (%s): %s' % (key, what, problem or 'children visited in the inferred scope, restored'))
+        key = '%s.%s:%s' % (cls.name, attr, what)
+        r.inst(key, sample='%s -> %s.%s: %s' % (key, vis.name, fn.name, problem or 'children visited in the inferred scope, restored'))
         if problem:
-            r.violate('%s:%s' % (key, what), vis.module.rel, fn.lineno,
+            r.violate(key, vis.module.rel, fn.lineno,
                       '%s runs type inference on %s.%s, but %s.%s (the handler selected for a %s) %s [%s]: self.env.lookup(name) does not reach the variables '
                       'declared in that scope (or finds another variable of the same name), their might_overflow flag stays unset and safe inference gives them '
                       'C integer types whose arithmetic wraps around, e.g. [i*i*i*i for i in range(3000000, 3000002)]'
